@@ -183,6 +183,12 @@ def gen_cases(tier, seed):
         for n in range(1, (nmax if dtype == "float32" or quick else 7) + 1):
             for w in range(1, n + 1):
                 add({"op": "rollbulk", "dtype": dtype, "A": ALPHA, "n": n, "w": w, "nd": ND})
+    # ... and with the nodata value INSIDE the range of the data's partial sums (a running total that happens to equal
+    # the sentinel is still a total): nodata -1 and 3 over small integers
+    for alpha, nd_ in (([-1, -2, 0, 1, 3], -1), ([3, -2, 0, 1, 2], 3)):
+        for n in range(1, (5 if quick else 6) + 1):
+            for w in range(1, n + 1):
+                add({"op": "rollbulk", "dtype": "int16" if (n + w) % 2 else "float32", "A": alpha, "n": n, "w": w, "nd": nd_})
     # --- (B2) accessor (trim + dims + dask), all series up to length 4/5, all windows
     for n in range(1, (4 if quick else 5) + 1):
         S = all_series(ALPHA, n)
